@@ -346,11 +346,11 @@ func extractTimeout(headers http.Header, protocol conformancev1.Protocol, feedba
 		}
 		headers.Del(connectTimeoutHeader)
 		intVal, err := strconv.ParseInt(val, 10, 64)
-		if err != nil || intVal < 0 {
+		if err != nil || intVal < 0 || !isASCIIDigits(val) {
 			feedback.Printf("invalid numeric value for %q header: %q", connectTimeoutHeader, val)
 			break
 		}
-		if intVal > 9999999999 { // 10 digit max
+		if len(val) > 10 { // 10 digit max
 			feedback.Printf("invalid numeric value (>10 digits) in %q header: %q", connectTimeoutHeader, val)
 			break
 		}
@@ -376,11 +376,11 @@ func extractTimeout(headers http.Header, protocol conformancev1.Protocol, feedba
 			break
 		}
 		intVal, err := strconv.ParseInt(timeoutStr, 10, 64)
-		if err != nil || intVal < 0 {
+		if err != nil || intVal < 0 || !isASCIIDigits(timeoutStr) {
 			feedback.Printf("invalid numeric value in %q header: %q", grpcTimeoutHeader, val)
 			break
 		}
-		if intVal > 99999999 { // 8 digit max
+		if len(timeoutStr) > 8 { // 8 digit max
 			feedback.Printf("invalid numeric value (>8 digits) in %q header: %q", grpcTimeoutHeader, val)
 			break
 		}
@@ -413,6 +413,19 @@ func extractTimeout(headers http.Header, protocol conformancev1.Protocol, feedba
 		return timeout, true
 	}
 	return 0, false
+}
+
+// isASCIIDigits returns true if s consists only of ASCII digits. The timeout
+// grammars of the Connect and gRPC protocols allow neither a sign nor more than
+// a fixed number of digits (strconv.ParseInt alone accepts "+5", "-0" and any
+// number of leading zeros).
+func isASCIIDigits(s string) bool {
+	for i := 0; i < len(s); i++ {
+		if s[i] < '0' || s[i] > '9' {
+			return false
+		}
+	}
+	return true
 }
 
 func contextWithTimeout(ctx context.Context, timeout time.Duration) context.Context {
